@@ -183,12 +183,29 @@ func runC16Docs(c *Ctx, newSrv func() *server.Server) {
 		{strMember("apiVersion", "apps/"), strMember("kind", "AdmissionReview"), obj("request", "{}")},
 		{},
 	}
-	for i := 0; i < n+len(directed); i++ {
+	// malformed in ways only the full decoder notices, around a request for a SUBRESOURCE of a workload (the plainest request
+	// there is: the library answers it with a bare allow) — it is the review that must be well-formed, whatever it asks about
+	subReq := `{"uid":"doc-uid","kind":{"group":"autoscaling","version":"v1","kind":"Scale"},"resource":{"group":"apps","version":"v1","resource":"deployments"},"subResource":"scale","requestKind":{"group":"autoscaling","version":"v1","kind":"Scale"},"requestResource":{"group":"apps","version":"v1","resource":"deployments"},"requestSubResource":"scale","name":"web","namespace":"priv","operation":"UPDATE","userInfo":{"username":"u"},"object":{"apiVersion":"autoscaling/v1","kind":"Scale","metadata":{"name":"web","namespace":"priv"},"spec":{"replicas":3}}}`
+	subReqBad := strings.Replace(subReq, `"operation":"UPDATE"`, `"operation":7`, 1)
+	late := [][]member{ // sent after the generated documents (the generated stream stays what it was)
+		[]member{strMember("apiVersion", "admission.k8s.io/v1beta1"), strMember("kind", "AdmissionReview"), obj("request", subReq)},
+		[]member{strMember("apiVersion", "v1"), strMember("kind", "ConfigMap"), obj("request", subReq)},
+		[]member{strMember("apiVersion", "admission.k8s.io/v1"), strMember("kind", "AdmissionReview"), obj("Request", subReq)},
+		[]member{strMember("apiVersion", "admission.k8s.io/v1"), strMember("kind", "AdmissionReview"), member{K: "request", T: "objBad", text: subReqBad}},
+		[]member{strMember("apiVersion", "admission.k8s.io/v1"), strMember("kind", "AdmissionReview"), obj("request", subReq), member{K: "response", T: "other", text: "7"}},
+		[]member{strMember("apiVersion", "apps/v1"), strMember("kind", "Deployment"), obj("request", subReq)},
+		[]member{strMember("apiVersion", "admission.k8s.io/v1"), strMember("kind", "AdmissionReview"), obj("request", subReq)},
+	}
+	isDirected := func(i int) bool { return i < len(directed) || i >= n+len(directed) }
+	for i := 0; i < n+len(directed)+len(late); i++ {
 		var ms []member
-		if i < len(directed) {
+		switch {
+		case i < len(directed):
 			ms = directed[i]
-		} else {
+		case i < n+len(directed):
 			ms = gen()
+		default:
+			ms = late[i-n-len(directed)]
 		}
 		var b strings.Builder
 		b.WriteString(pick(r, []string{"{", " {", "{\n", "\t{ "}))
@@ -220,13 +237,13 @@ func runC16Docs(c *Ctx, newSrv func() *server.Server) {
 		}
 		c.Eval(1)
 		c.Tag(fmt.Sprintf("docs.status.%d", o.status))
-		if i < len(directed) {
+		if isDirected(i) {
 			c.Tag(fmt.Sprintf("docs.directed.%s -> %d", body, o.status))
 		}
 		all = append(all, o)
 		ops = append(ops, J{"op": "review", "doc": doc})
 		// the property's own words
-		hasGoodReq := strings.Contains(body, `"request":`+goodReq)
+		hasGoodReq := strings.Contains(body, `"request":`+goodReq) || strings.Contains(body, `"request":`+subReq)
 		hasEmptyReq := strings.Contains(body, `"request":{}`)
 		switch {
 		case o.status == -1:
@@ -243,6 +260,10 @@ func runC16Docs(c *Ctx, newSrv func() *server.Server) {
 	outs := c.Lean(ops)
 	for i, o := range all {
 		want, _ := outs[i]["status"].(float64)
+		if isDirected(i) && int(want) >= 400 && o.status != -1 && o.status < 400 {
+			// the directed documents are malformed by construction (another apiVersion / kind, a misspelt or ill-typed request)
+			c.Violate(Finding{Desc: fmt.Sprintf("a review that is not a well-formed v1 AdmissionReview with a request is answered with status %d", o.status), Key: "malformed-document-accepted", Input: J{"body": o.body}})
+		}
 		if int(want) != o.status && o.status != -1 {
 			c.Disagree(Finding{Desc: fmt.Sprintf("review document: HTTP status %d, model %d", o.status, int(want)), Input: J{"body": o.body, "doc": ops[i]["doc"]}})
 		}
